@@ -19,7 +19,7 @@ extern const size_t g_k;                        /* ghost byte index */
 extern void* const g_dest; extern const void* const g_src;   /* the two storages the unit works on */
 
 void copy_fn_contract(void* dest, const void* src)
-__CPROVER_requires(dest == g_dest && src == g_src)                                /*@ob C20.copy-constructs-into-the-destination-from-the-source */
+__CPROVER_requires(dest == g_dest && src == g_src)                                /*@ob C20,C15.copy-constructs-into-the-destination-from-the-source */
 __CPROVER_requires(g_live[1] == 1)                                                /*@ob C20.copied-from-a-live-object */
 __CPROVER_requires(g_live[0] != 1)                                                /*@ob C20.never-constructed-over-a-live-object */
 __CPROVER_requires(g_ncopy < 1000)
@@ -55,8 +55,8 @@ void cb_copy(const control_block* self, void* dest, const void* src)
 __CPROVER_requires(CB_OK(self) && __CPROVER_is_fresh(dest, BUFSZ) && __CPROVER_is_fresh(src, BUFSZ) && dest == g_dest && src == g_src)
 __CPROVER_requires(g_live[1] == 1 && g_live[0] != 1 && 0 <= g_ncopy && g_ncopy < 100 && g_k < self->size)
 __CPROVER_assigns(__CPROVER_object_whole(dest), g_live[0], g_ncopy)                                             /*@ob C15,C20.copy-leaves-the-source-untouched */
-__CPROVER_ensures((self->is_inline && !self->copy_construct_fn) ==> (((const unsigned char*)dest)[g_k] == ((const unsigned char*)src)[g_k] && g_ncopy == __CPROVER_old(g_ncopy)))   /*@ob C20.trivial-inline-object-copied-byte-for-byte */
-__CPROVER_ensures(!(self->is_inline && !self->copy_construct_fn) ==> (g_ncopy == __CPROVER_old(g_ncopy) + 1 && g_live[0] == 1))      /*@ob C20.non-trivial-object-copy-constructed-exactly-once */
+__CPROVER_ensures((self->is_inline && !self->copy_construct_fn) ==> (((const unsigned char*)dest)[g_k] == ((const unsigned char*)src)[g_k] && g_ncopy == __CPROVER_old(g_ncopy)))   /*@ob C20,C15,C18.trivial-inline-object-copied-byte-for-byte */
+__CPROVER_ensures(!(self->is_inline && !self->copy_construct_fn) ==> (g_ncopy == __CPROVER_old(g_ncopy) + 1 && g_live[0] == 1))      /*@ob C20,C15.non-trivial-object-copy-constructed-exactly-once */
 ;
 /* control_block::move */
 void cb_move(const control_block* self, void* dest, void* src)
@@ -79,7 +79,7 @@ __CPROVER_ensures((self->delete_fn && obj) ? (g_ndel == __CPROVER_old(g_ndel) + 
 void* poly_get(const poly_t* self)
 __CPROVER_requires(__CPROVER_is_fresh(self, sizeof(*self)) && __CPROVER_is_fresh(self->m_control_block, sizeof(control_block)))
 __CPROVER_assigns()
-__CPROVER_ensures(__CPROVER_return_value == (self->m_control_block->is_inline ? (void*)&self->u.m_buffer : self->u.m_ptr))      /*@ob C20.get-returns-the-stored-object */
+__CPROVER_ensures(__CPROVER_return_value == (self->m_control_block->is_inline ? (void*)&self->u.m_buffer : self->u.m_ptr))      /*@ob C20,C18.get-returns-the-stored-object */
 ;
 /* stubs of the control block members seen from the polymorphic object (the units above, contract-only) */
 void m_cb_destroy(const control_block* cb, void* obj)
@@ -204,6 +204,6 @@ __CPROVER_assigns(__CPROVER_object_whole(self), g_built)
 __CPROVER_ensures(g_built == 1 || g_built == 2)                                                                 /*@ob C20.stored-object-constructed-exactly-once */
 __CPROVER_ensures(g_built == 1 ==> (self->m_control_block == &g_cb_inline && g_size_U <= BUFSZ && g_align_U <= 8))   /*@ob C20.inline-control-block-iff-the-object-lives-in-the-buffer */
 __CPROVER_ensures(g_built == 2 ==> (self->m_control_block == &g_cb_heap && self->u.m_ptr == g_heap_obj))             /*@ob C20.heap-control-block-iff-the-object-lives-on-the-heap */
-__CPROVER_ensures((g_built == 1 && g_trivial_U) ==> self->u.m_buffer[g_k % BUFSZ] == ((const unsigned char*)obj)[g_k % BUFSZ] || g_k % BUFSZ >= g_size_U)   /*@ob C20.trivially-copyable-object-copied-byte-for-byte */
+__CPROVER_ensures((g_built == 1 && g_trivial_U) ==> self->u.m_buffer[g_k % BUFSZ] == ((const unsigned char*)obj)[g_k % BUFSZ] || g_k % BUFSZ >= g_size_U)   /*@ob C20,C15,C18.trivially-copyable-object-copied-byte-for-byte */
 ;
 #endif
